@@ -495,18 +495,37 @@ def derived_workspaces(g, rng, n_base, n_prefix, n_edit, n_nonascii, multi=True)
 
 
 def corpus_workspaces(rng, n, max_bytes=60000):
-    """workspaces rooted at LLVM-14 .td files (all 39 files present, includes resolve through INCLUDE_DIR=/c)"""
+    """workspaces rooted at LLVM-14 .td files whose include closure (resolved like the server does, next to the
+    includer or through INCLUDE_DIR=/c) is at most max_bytes; only the closure's files are put into the workspace"""
+    import re
     root = "/usr/include/llvm-14"
-    files = []
+    files = {}
     for d, _, fs in os.walk(root):
         for f in sorted(fs):
             if f.endswith(".td"):
                 p = os.path.join(d, f)
-                files.append(["/c/" + os.path.relpath(p, root), open(p, encoding="utf-8", errors="replace").read()])
-    files.sort()
-    small = [p for p, t in files if len(t) <= max_bytes]
-    rng.shuffle(small)
-    return [(files, p) for p in small[:n]]
+                files[os.path.relpath(p, root)] = open(p, encoding="utf-8", errors="replace").read()
+
+    def closure(r):
+        seen, st = set(), [r]
+        while st:
+            x = st.pop()
+            if x in seen or x not in files:
+                continue
+            seen.add(x)
+            for m in re.finditer(r'include\s+"([^"]+)"', files[x]):
+                for c in (os.path.normpath(os.path.join(os.path.dirname(x), m.group(1))), m.group(1)):
+                    if c in files:
+                        st.append(c)
+                        break
+        return seen
+    cands = []
+    for r in sorted(files):
+        c = closure(r)
+        if sum(len(files[x]) for x in c) <= max_bytes:
+            cands.append((r, sorted(c)))
+    rng.shuffle(cands)
+    return [([["/c/" + x, files[x]] for x in c], "/c/" + r) for r, c in cands[:n]]
 
 
 def replay_obj(prop, e, what, extra=None):
